@@ -32,6 +32,9 @@ type StressCase struct {
 	Jitter   int64      `json:"jitter"`
 	Preload  int        `json:"preload"`
 	HookMs   int        `json:"hook_ms"` // how long the media hook runs (keys arrive while it is still running)
+	// SlowMs > 0: every response takes this long (well within the client's timeout): a page load that walks a chain of
+	// ancestors lasts longer than the timeout although no request does
+	SlowMs int `json:"slow_ms,omitempty"`
 }
 
 func RunStress(sim *vsim.Sim, c StressCase) vrep.Result {
@@ -39,6 +42,10 @@ func RunStress(sim *vsim.Sim, c StressCase) vrep.Result {
 	c.World.Install(sim, prefix)
 	sim.SetJitter(c.Jitter)
 	defer sim.SetJitter(0)
+	if c.SlowMs > 0 {
+		sim.SetLatency(int64(c.SlowMs))
+		defer sim.SetLatency(0)
+	}
 	expand := func(s string) string { return sim.Expand(strings.ReplaceAll(s, "%P%", prefix), -1, prefix) }
 	config.Parsed.Network.Context = c.Preload
 	config.Parsed.Media.Hook = []string{"true"}
@@ -164,7 +171,14 @@ func RunStress(sim *vsim.Sim, c StressCase) vrep.Result {
 		}
 	}
 	frames := atomic.LoadInt64(&d.Emitted)
-	return vrep.Result{Classes: []string{fmt.Sprintf("frames>=%d", (frames/20)*20)}, Nontrivial: len(c.Keys) >= 5 && frames > 5}
+	classes := []string{fmt.Sprintf("frames>=%d", (frames/20)*20)}
+	if c.SlowMs > 0 {
+		classes = append(classes, "slow-thread(load outlasts the timeout)")
+	}
+	if c.World.NoTotals {
+		classes = append(classes, "collections-without-totals")
+	}
+	return vrep.Result{Classes: classes, Nontrivial: len(c.Keys) >= 5 && frames > 5}
 }
 
 var stressKeys = []byte{'j', 'j', 'j', 'k', 'g', ' ', ' ', 'c', 'r', 'a', 'h', 'l', 'o', 'o', 'p', 'p', 'b', '1', '1', '2', '.', '\r', '\r', 27, 27, 127, ':', 'x'}
@@ -174,6 +188,7 @@ func GenStressCase(t *rapid.T) StressCase {
 	c := StressCase{World: h.World, Start: h.Start, ResizeMs: rapid.IntRange(1, 25).Draw(t, "resizems"), Jitter: int64(rapid.IntRange(1, 1<<30).Draw(t, "jitter")), Preload: rapid.IntRange(1, 5).Draw(t, "preload"),
 		HookMs: rapid.SampledFrom([]int{0, 0, 5, 20, 60}).Draw(t, "hookms")}
 	c.World.AliasRefs = rapid.SampledFrom([]int{0, 0, 1}).Draw(t, "aliasrefs") == 1
+	c.World.NoTotals = rapid.SampledFrom([]int{0, 0, 1}).Draw(t, "nototals") == 1
 	for i := range c.World.Actors {
 		if c.World.Actors[i].OutboxPer > 0 && rapid.SampledFrom([]int{0, 0, 0, 1}).Draw(t, "outboxloop") == 1 {
 			c.World.Actors[i].OutboxLoop = rapid.SampledFrom([]string{"self", "first"}).Draw(t, "loopkind")
@@ -200,6 +215,25 @@ func GenStressCase(t *rapid.T) StressCase {
 			continue
 		}
 		c.Keys = append(c.Keys, Stim{Key: int(rapid.SampledFrom(stressKeys).Draw(t, "key")), DelayUs: delay})
+	}
+	if len(c.World.Posts) >= 7 && rapid.SampledFrom([]int{0, 0, 0, 0, 0, 0, 0, 0, 0, 1}).Draw(t, "slowthread") == 1 {
+		// a long thread on slow servers, opened at its last post: walking up the ancestors takes longer than the
+		// client's timeout although every single answer arrives well within it; keys keep arriving meanwhile
+		for i := range c.World.Posts {
+			c.World.Posts[i].Parent = i - 1
+			c.World.Posts[i].NoReplies, c.World.Posts[i].Replies = true, nil
+		}
+		c.World.AliasRefs = false
+		c.Start = Event{Kind: "open", Text: c.World.PostURL("%P%", len(c.World.Posts)-1)}
+		c.Preload = 5
+		c.HookMs = 0
+		c.SlowMs = rapid.SampledFrom([]int{450, 550, 650}).Draw(t, "slowms")
+		c.Jitter = 1
+		c.ResizeMs = 25
+		c.Keys = nil
+		for n := rapid.IntRange(4, 9).Draw(t, "nslowkeys"); n > 0; n-- {
+			c.Keys = append(c.Keys, Stim{Key: int(rapid.SampledFrom([]byte{'k', 'k', 'k', 'j', 'g'}).Draw(t, "slowkey")), DelayUs: rapid.SampledFrom([]int{300000, 500000, 700000, 900000}).Draw(t, "slowdelay")})
+		}
 	}
 	return c
 }
